@@ -250,7 +250,7 @@ def run(ctx, driver):
         ctx.tie_break("hypothesis:benchmarks_same_stimulus",
                       "pol.seedsPython = true is not met by the source: _evaluate_integrator does not call random.seed")
     nsys = 6 if ctx.tier == "quick" else 40
-    systems = _systems(ctx.rng("systems"), nsys)
+    systems = [c["case"] for c in ctx.corpus() if "case" in c] + _systems(ctx.rng("systems"), nsys)
     results = pool.run_cases("harness.props.c14", "case_benchmark", systems, timeout=150, init="_init_worker",
                              deadline=ctx.deadline())
     proto_ops = []
